@@ -38,7 +38,7 @@ BUDGET = {'quick': (200, 16), 'thorough': (2500, 16)}
 
 OPS = ['append', 'store', 'store', 'store', 'expunge', 'expunge',
        'uidexpunge', 'copy', 'move', 'fetch', 'fetch', 'noop', 'idle', 'done',
-       'sync', 'sync']
+       'sync', 'sync', 'kill']
 
 
 def strategy(tier: str) -> Any:
